@@ -108,6 +108,7 @@ class C07(Property):
         big = tier == "thorough"
         while True:
             d = c06.random_config(rng, tier)
+            d.pop("clear_mode", None)  # C07's own `clear` strings below
             d["nframes"] = rng.choice([1, 2, 2, 3] + ([4] if big else []))
             d["loops"] = rng.choice([1, 1, 2])
             if d.get("indefinite"):  # an INDEFINITE stream run to completion, draw()'s default loops / cache
@@ -154,6 +155,16 @@ class C07(Property):
             dd = dict(d)
             dd["plan"] = None
             yield Case("", dd, f"{d['api']}-{d['style']}-{'anim' if anim else 'still'}-nofault", True)
+            if d["api"] == "new":  # … and on a buffering stream: everything must have been flushed when draw() returns
+                dd = dict(d)
+                dd.update(plan=None, buffered=True)
+                yield Case("", dd, f"new-{d['style']}-{'anim' if anim else 'still'}-nofault-buffered", True)
+                wk = [k for k in range(nbody) if log[k] == "write"]
+                for k in sorted({wk[0], wk[-1]} if wk else []):  # an exception in a (buffered) write on the way
+                    for exc in ("kbd", "err"):
+                        dd = dict(d)
+                        dd.update(plan={"k": k, "off": 0, "exc": exc}, buffered=True)
+                        yield Case("", dd, f"new-{d['style']}-{'anim' if anim else 'still'}-fault-buffered", True)
             ks = list(range(nbody))
             if not big and nbody > 16:
                 # … and EVERY sleep (between frames and the final one after the last frame)
@@ -212,6 +223,8 @@ class C07(Property):
         r, line, res = c06.run_case(d)
         case.line = line
         d["_stream"] = r.stream.getvalue()
+        # a buffering stream: only what a flush has DELIVERED by the time draw() returns / raises has reached the terminal
+        d["_delivered"] = getattr(r, "delivered", None) if d.get("buffered") else None
         d["_outcome"] = r.outcome
         d["_attrs"] = r.ft.summary() if r.ft is not None else "7,1"
         d["_attrs_restored"] = r.ft.restored() if r.ft is not None else True
@@ -244,7 +257,10 @@ class C07(Property):
             return Failure(f"exception/{where}", f"unexpected {d['_outcome']}")
         fired = d["_fired"]
         at = f"fault {d['plan']} at action kind {fired[0] if fired else None}"
-        st, vis, sgr_default = mini_terminal(d["_stream"])
+        seen = d["_delivered"] if d.get("_delivered") is not None else d["_stream"]
+        if d.get("_delivered") is not None and d["_delivered"] != d["_stream"]:
+            at += f" (buffering stream: {len(d['_stream']) - len(d['_delivered'])} characters were still unflushed)"
+        st, vis, sgr_default = mini_terminal(seen)
         # the new API's base class has no graphics renderable and its `_handle_interrupted_draw_` does nothing:
         # terminating a cut graphics command is the subclass's business, so text frames only there
         pending = mini_terminal.pending
